@@ -112,6 +112,7 @@ def load_db(text, db=None):
         with open(path, "w", encoding="utf-8", newline="") as f:
             f.write(text)
         db = Database() if db is None else db
+        len(db)                       # (the caller looked at the size before loading: what it sees afterwards is the new size)
         _LOADS[0] += 1
         if _LOADS[0] % 4 == 3:
             # a RELATIVE path, named like the bundled database ("data/p0f.fp" below the current directory): it is the caller's file that is read
